@@ -21,10 +21,22 @@ worlds per process.
       that end differently, is a failing input (`c06-job-error-...`).  The refusal classes whose job
       raises on a worker rank (group C) are replayed the same way: the driver cuts the run into its
       iter_unordered episodes (begin/end marks per rank in the simulator log, c06_driver.IterTracer).
+ (i'') the CONSUMER of the iterator.  Every caller in the library exhausts it - dict comprehension, deque(maxlen=0), for
+      loop, each through utils.logging.Indicator when progress=True.  The dispatch jobs of (i) and (i') are consumed in
+      all these ways (c06_driver.wrap_consumer; incl. Indicator with / without the number of items): every rank must
+      return, root result as in (i).  A consumer that asks for at most k items (islice, a loop that breaks): k > number
+      of tasks is an ordinary run; k <= number of tasks is NOT an input of the property (no entry point stops early) -
+      Model/Dispatch.v (qstep) says that no run can then end with all ranks returned (C06_consumer_stop_never_done,
+      ..._gets_stuck, ..._after_last_item_refuted); the log is replayed through qstep_with (`c06_qdispatch_case`), the
+      model must end stopped with every worker quiet exactly when only the root came back - a difference is a broken tie.
  (ii) `Catalog.from_dataframe` (MPI write pipeline), `Catalog(cache)`, `build_trees`,
       `autocorrelate`, `crosscorrelate`, `HistData.from_catalog`, `HistData.to_files/from_files`,
       `CorrFunc.to_file/from_file`: root results must equal the single-process run computed in
-      this process (no MPI), all ranks must return.
+      this process (no MPI), all ranks must return.  The OPTIONAL KEYWORD ARGUMENTS of these calls are part of the
+      input (draw_opts; meaning: c06_common above stage_create): progress=True per operation, chunksize extremes
+      (1, 2, n-1, n, n+1, >n, library default), patch_num + probe_size (patch centres made by the library), leafsize,
+      a second build_trees with force=True/False, count_rr, the worker limit through Configuration.max_workers or
+      per operation.  The single-process reference is the SAME call with the SAME optional arguments (world_reference).
  (iii) error paths: requests that the single-process run REFUSES by raising (c06_common.REFUSALS:
       probe larger than the random sample, centre without records, no patch method, existing cache
       without overwrite, non-finite values, missing column / file / cache, different patch ids,
@@ -66,6 +78,12 @@ TRUSTED = [
     "refusal runs: extraction of the per-communicator collective call sequences from the simulator log "
     "(harness/props/c06_driver.py:collective_traces); point-to-point traffic is not part of that model, so the Coq "
     "side checks a necessary condition (all ranks returned -> aligned), the verdict itself is the observed return of every rank",
+    "consumer-stop runs (i''): translation of the log into qchoices (harness/props/c06.py:qtranslate - the root's receive that "
+    "is not followed by an answer to that worker is QStopRecv, the last task the job function ran on the root QStopFallback); these "
+    "runs only tie the model of the early-stopping consumer to the implementation, they never produce a failing input",
+    "worlds with create_mode='num' (patch centres from the library's k-means, which is not seeded): only the union of the stored "
+    "records, their number and the total weight are compared with the single-process run; a run in which the k-means leaves a "
+    "centre without records (refused on every rank) is counted and not compared",
     "a real MPI library, real transport, eager limits, non-synchronising collectives, several hosts for the write "
     "pipeline, pickling of real mpi4py communicators are NOT exercised (not installed)",
 ]
@@ -77,8 +95,9 @@ ASSUMPTIONS = [
     "for the root rank, the other ranks only have to return",
 ]
 RULE = ("dispatch cases = (world size, max_workers, rank0_node_only/hosts, send mode, wildcard policy+seed or explicit "
-        "choice sequence, task list); pipeline cases = (world size, max_workers, send mode, policy, seed, data spec); "
-        "distinct by that tuple; non-trivial when some wildcard receive had >= 2 candidate senders "
+        "choice sequence, task list, consumer kind, item limit of the consumer); pipeline cases = (world size, max_workers, send mode, "
+        "policy, seed, data spec, optional keyword arguments of the entry points); distinct by that tuple; consumer-stop cases = "
+        "dispatch tuple with an item limit <= number of tasks, non-trivial on >= 2 ranks; non-trivial when some wildcard receive had >= 2 candidate senders "
         "(the schedule actually decided something); failing-job cases = dispatch tuple + the task values the job raises for, "
         "non-trivial when that set is not empty; iter_unordered episodes of group C refusal runs = (refusal case, call number), "
         "non-trivial when the job raised in it; refusal cases = (refusal class, its parameters, follow-up "
@@ -164,6 +183,14 @@ def ranks_of(size, mw, node_only, hosts):
     return [i for i in range(size) if hosts[i] == hosts[0]][:k]
 
 
+# how the caller consumes the iterator (c06_driver.wrap_consumer).  All of these exhaust it, as every caller in the
+# library does; "indicator*" = through utils.logging.Indicator, i.e. what progress=True does in load_patches,
+# build_trees, count_pairs and HistData.from_catalog
+CONSUMERS = ["list", "list", "for", "dict", "deque", "enumerate", "gen", "chain", "indicator", "indicator", "indicator-for",
+             "indicator-for", "indicator-nolen"]
+LAZY_CONSUMERS = ["for", "for", "deque", "enumerate", "gen", "chain", "indicator-for", "indicator-for", "indicator-nolen"]
+
+
 def dispatch_jobs(ctx, size, mode, batch):
     rng = ctx.rng
     jobs = []
@@ -176,30 +203,53 @@ def dispatch_jobs(ctx, size, mode, batch):
             for _ in range(nseeds):
                 tasks = rng.sample(range(0, 900), nt)
                 pol = rng.choice(["random", "random", "random", "low", "high", "fifo", "lifo"])
-                jobs.append(dict(kind="dispatch", tasks=tasks, max_workers=mw,
+                jobs.append(dict(kind="dispatch", tasks=tasks, max_workers=mw, consumer=rng.choice(CONSUMERS),
                                  sched=dict(mode=mode, policy=pol, seed=rng.randrange(10 ** 6))))
     # rank0_node_only, one and several host names (several hosts: modelled only)
     for nt in (3, 6):
         jobs.append(dict(kind="dispatch", tasks=rng.sample(range(900), nt), max_workers=rng.choice([None, 2, size]),
-                         node_only=True, sched=dict(mode=mode, policy="random", seed=rng.randrange(10 ** 6))))
+                         node_only=True, consumer=rng.choice(CONSUMERS),
+                         sched=dict(mode=mode, policy="random", seed=rng.randrange(10 ** 6))))
         if size >= 3:
             hosts = ["a"] + [rng.choice(["a", "b"]) for _ in range(size - 1)]
             if "a" not in hosts[1:]:
                 hosts[rng.randrange(1, size)] = "a"
             jobs.append(dict(kind="dispatch", tasks=rng.sample(range(900), nt), max_workers=rng.choice([None, size]),
-                             node_only=True, sched=dict(mode=mode, policy="random", seed=rng.randrange(10 ** 6), hosts=hosts)))
+                             node_only=True, consumer=rng.choice(CONSUMERS),
+                             sched=dict(mode=mode, policy="random", seed=rng.randrange(10 ** 6), hosts=hosts)))
     # every sequence of wildcard choices for small task lists
     if mode != "mixed" and batch == 0:
         for nt in ([2, 3] if ctx.quick() else [1, 2, 3, 4]):
             jobs.append(dict(kind="dispatch", tasks=list(range(10, 10 + nt)), max_workers=None, exhaustive=True,
-                             maxruns=400, sched=dict(mode=mode, seed=0)))
-        jobs.append(dict(kind="dispatch", tasks=[7, 8, 9], max_workers=2, exhaustive=True, maxruns=100,
+                             maxruns=400, consumer="indicator" if nt == 2 else "list", sched=dict(mode=mode, seed=0)))
+        jobs.append(dict(kind="dispatch", tasks=[7, 8, 9], max_workers=2, exhaustive=True, maxruns=100, consumer="indicator-for",
                          sched=dict(mode=mode, seed=0)))
     if size == 3 and mode == "eager" and batch == 0:
         jobs.append(dict(kind="selftest"))
+    jobs += stop_jobs(ctx, size, mode, batch)
     jobs += joberr_jobs(ctx, size, mode, batch)
     for i, j in enumerate(jobs):
         j["id"] = i
+    return jobs
+
+
+def stop_jobs(ctx, size, mode, batch):
+    """(i'') a consumer that asks for at most k items (itertools.islice / a loop that breaks).  k > number of tasks: it
+    exhausts the iterator - an ordinary run.  k <= number of tasks: a different protocol run, NOT an input of the
+    property (no entry point of the library stops early); Model/Dispatch.v (qstep) says that it cannot end with all
+    ranks returned - the run is replayed through the model, a difference is a broken tie"""
+    rng = ctx.rng
+    jobs = []
+    for _ in range(ctx.n(3, 5)):
+        nt = rng.choice([1, 2, 3, 4, 6])
+        k = rng.choice([1, max(1, nt // 2), nt, nt, nt + 1, nt + 4])
+        jobs.append(dict(kind="dispatch", tasks=rng.sample(range(900), nt), max_workers=rng.choice([None, None, 1, 2, size]),
+                         stop=k, consumer=rng.choice(["islice", "break"]),
+                         sched=dict(mode=mode, policy=rng.choice(["random", "low", "high", "fifo"]), seed=rng.randrange(10 ** 6))))
+    if mode != "mixed" and batch == 0:
+        # stop after the LAST item (the consumer has everything it expects), every sequence of wildcard choices
+        jobs.append(dict(kind="dispatch", tasks=[10, 11, 12], max_workers=None, stop=3, consumer="islice", exhaustive=True,
+                         maxruns=40 if ctx.quick() else 200, sched=dict(mode=mode, seed=0)))
     return jobs
 
 
@@ -235,6 +285,52 @@ def translate(log, size, nroot=0):
             out.append("CExit")
         elif op == "done:Barrier" and n == last_bar:
             out.append("CBar")
+    return out
+
+
+def qtranslate(log, size, nroot, stopped):
+    """communication log of one iter_unordered run whose consumer may have stopped -> qchoices (strings).
+    As translate(); the root's receive of a result that is never answered (the consumer stopped at that item) is
+    QStopRecv, the last task the root ran itself before the consumer stopped QStopFallback."""
+    nworkers = size - 1
+    bars = [e[0] for e in log if e[2] == "done:Barrier" and e[5] == 0]
+    last_bar = bars[-1] if bars else None
+    out, init_sent, init_done = [], 0, False
+    pending = None          # (position in out, sender) of the root's last receive while it is unanswered
+    for e in log:
+        n, rank, op, peer, tag, cid, summ = e[:7]
+        if cid != 0:
+            continue
+        if rank == 0 and init_sent == nworkers and not init_done and (
+                (op in ("send", "ssend") and tag == 1) or op == "enter:Barrier" or (op == "recv" and tag == 2)):
+            out.append("QRun CInitDone")
+            init_done = True
+        if op in ("send", "ssend") and rank == 0 and tag == 1:
+            eoq = summ == EOQ
+            if init_sent < nworkers:
+                out.append("QRun (%s %d)" % ("CInitEoq" if eoq else "CInitTask", peer - 1))
+                init_sent += 1
+            else:
+                out.append("QRun (%s %d)" % ("CRecvLast" if eoq else "CRecvMore", peer - 1))
+                pending = None
+        elif op == "recv" and rank == 0 and tag == 2:
+            pending = (len(out), peer)
+        elif op == "recv" and rank != 0 and peer == 0 and tag == 1:
+            out.append("QRun (%s %d)" % ("CWEoq" if summ == EOQ else "CWTask", rank - 1))
+        elif op == "enter:Barrier" and rank == 0:
+            out.extend(["QRun CFallback"] * nroot)
+            out.append("QRun CExit")
+            nroot = 0
+        elif op == "done:Barrier" and n == last_bar:
+            out.append("QRun CBar")
+    if init_sent == nworkers and not init_done:
+        out.append("QRun CInitDone")
+    if stopped:
+        if pending is not None:
+            out.insert(pending[0], "QStopRecv %d" % (pending[1] - 1))
+        elif nroot:
+            out.extend(["QRun CFallback"] * (nroot - 1))
+            out.append("QStopFallback")
     return out
 
 
@@ -330,16 +426,17 @@ def joberr_jobs(ctx, size, mode, batch):
             else:
                 bad = []
             pol = rng.choice(["random", "random", "random", "low", "high", "fifo", "lifo"])
-            jobs.append(dict(kind="dispatch", tasks=tasks, bad=sorted(bad), max_workers=mw,
+            jobs.append(dict(kind="dispatch", tasks=tasks, bad=sorted(bad), max_workers=mw, consumer=rng.choice(LAZY_CONSUMERS),
                              sched=dict(mode=mode, policy=pol, seed=rng.randrange(10 ** 6))))
     tasks = rng.sample(range(900), 5)
     jobs.append(dict(kind="dispatch", tasks=tasks, bad=[tasks[rng.randrange(5)]], max_workers=rng.choice([None, 2, size]),
-                     node_only=True, sched=dict(mode=mode, policy="random", seed=rng.randrange(10 ** 6))))
+                     node_only=True, consumer=rng.choice(LAZY_CONSUMERS),
+                     sched=dict(mode=mode, policy="random", seed=rng.randrange(10 ** 6))))
     # every sequence of wildcard choices: one failing task among four, two among three
     if mode != "mixed" and batch == 0:
         cap = 120 if ctx.quick() else 400
         jobs.append(dict(kind="dispatch", tasks=[10, 11, 12, 13], bad=[11], max_workers=None, exhaustive=True,
-                         maxruns=cap, sched=dict(mode=mode, seed=0)))
+                         maxruns=cap, consumer="indicator-for", sched=dict(mode=mode, seed=0)))
         jobs.append(dict(kind="dispatch", tasks=[7, 8, 9], bad=[7, 9], max_workers=2, exhaustive=True, maxruns=cap,
                          sched=dict(mode=mode, seed=0)))
         if not ctx.quick():
@@ -364,22 +461,24 @@ def handle_joberr(ctx, st, size, j, res):
     hosts = j["sched"].get("hosts")
     ranks = ranks_of(size, j.get("max_workers"), j.get("node_only"), hosts)
     tasks, bad = j["tasks"], j["bad"]
+    cons = j.get("consumer") or "for"
     for run in res.get("runs", []):
         idx = len(st["eterms"]) + len(st["enoterm"])
         replay = dict(entry="parallel.iter_unordered", job_raises_for=bad, world_size=size, max_workers=j.get("max_workers"),
-                      rank0_node_only=bool(j.get("node_only")), tasks=tasks, schedule=run.get("sched"),
+                      rank0_node_only=bool(j.get("node_only")), tasks=tasks, consumer=cons, schedule=run.get("sched"),
                       decisions=[[d["rank"], d["senders"], d["chosen"]] for d in run.get("decisions", [])][:40])
         key = ("joberr", size, j.get("max_workers"), bool(j.get("node_only")), mode,
-               tuple(d["chosen"] for d in run.get("decisions", [])), tuple(tasks), tuple(bad))
+               tuple(d["chosen"] for d in run.get("decisions", [])), tuple(tasks), tuple(bad), cons)
         ctx.count(key=key, nontrivial=bool(bad) and size >= 2,
                   kind="joberr/size%d/mw%s/%s%s" % (size, j.get("max_workers"), mode, "/exh" if j.get("exhaustive") else ""))
+        ctx.bump("joberr_consumer:" + cons)
         prob = rank_problems(run)
         if prob:
             st["enoterm"].append(idx)
             ctx.fail("c06-job-error-%s" % problem_kind(prob),
-                     "iter_unordered with a job that raises for the tasks %s (tasks %s, %d ranks, max_workers=%s, %s sends) did not "
-                     "end on all ranks (%s): %s; blocked in: %s"
-                     % (bad, tasks, size, j.get("max_workers"), mode, prob[0], json.dumps(prob[1], default=str)[:500],
+                     "iter_unordered (consumer: %s) with a job that raises for the tasks %s (tasks %s, %d ranks, max_workers=%s, %s sends) "
+                     "did not end on all ranks (%s): %s; blocked in: %s"
+                     % (cons, bad, tasks, size, j.get("max_workers"), mode, prob[0], json.dumps(prob[1], default=str)[:500],
                         json.dumps((run.get("abort") or {}).get("blocked"))[:300]), replay, case=("e", idx))
             continue
         vals = {int(r): v.get("value") or {} for r, v in run["ranks"].items()}
@@ -422,13 +521,22 @@ def handle_episodes(ctx, st, w, j, run, idx, replay):
     """the iter_unordered episodes of a refusal run (group C: the job raises on a worker rank), replayed through
     the extended model; tasks are numbered in the order the root hands them out"""
     size, mode = w["size"], w["mode"]
-    ranks = ranks_of(size, j["max_workers"], False, None)
     for ep in run.get("episodes", []):
         recs = {int(r): v for r, v in ep["ranks"].items()}
         if not ep["complete"] or any(v is None or v["outcome"] is None for v in recs.values()):
             ctx.bump("episode_incomplete")
             continue
         root = recs[0]
+        # the worker limit of THIS call of iter_unordered (its max_workers argument as recorded at the call boundary on the
+        # root: the follow-up operation of a world may carry its own limit, option mw_ops)
+        ep_mw = root.get("mw", j["max_workers"])
+        if any(v.get("mw", ep_mw) != ep_mw for v in recs.values()):
+            ctx.disagree("episode-observation(ranks call iter_unordered with different worker limits)", (idx[0], idx[1], "ep%d" % ep["ep"]),
+                         dict(replay=replay, per_rank={r: v.get("mw") for r, v in recs.items()}))
+            continue
+        if ep_mw != j["max_workers"]:
+            ctx.bump("episodes_with_own_worker_limit")
+        ranks = ranks_of(size, ep_mw, bool(root.get("node_only")), None)
         choices, info = etranslate(ep["log"], size, root["calls"])
         eidx = (idx[0], idx[1], "ep%d" % ep["ep"])
         # the job function's own record (per rank, in order) against the log: one call per task received
@@ -453,7 +561,7 @@ def handle_episodes(ctx, st, w, j, run, idx, replay):
         ntasks = root["ntasks"]
         erep = dict(replay, episode=ep["ep"], items=ntasks, job_raised_for_items=sorted(bad),
                     per_rank={r: v["outcome"] for r, v in recs.items()})
-        ctx.count(key=("episode",) + tuple(str(x) for x in eidx) + (size, j["max_workers"], mode, w["policy"], w["seed"], w["spec"]),
+        ctx.count(key=("episode",) + tuple(str(x) for x in eidx) + (size, j["max_workers"], ep_mw, mode, w["policy"], w["seed"], w["spec"]),
                   nontrivial=bool(bad), kind="episode/%s/%s" % (j["cls"], "job-raises" if bad else "ok"))
         ctx.bump("episodes_replayed:" + ("raised" if outs[0] is not None else "returned"))
         st["eterms"].append(eterm(mode, size, ranks, list(range(ntasks)), sorted(bad), choices, False,
@@ -510,22 +618,31 @@ def handle_dispatch(ctx, st, size, j, res):
     ranks = ranks_of(size, j.get("max_workers"), j.get("node_only"), hosts)
     tasks = j["tasks"]
     want = sorted(3 * t + 1 for t in tasks)
+    cons, stop = j.get("consumer") or "list", j.get("stop")
+    if stop is not None and stop <= len(tasks):
+        return handle_qdispatch(ctx, st, size, j, res)
     for run in res.get("runs", []):
         idx = len(st["terms"]) + len(st["noterm"])
         replay = dict(entry="parallel.iter_unordered", world_size=size, max_workers=j.get("max_workers"),
-                      rank0_node_only=bool(j.get("node_only")), tasks=tasks, schedule=run.get("sched"),
+                      rank0_node_only=bool(j.get("node_only")), tasks=tasks, consumer=cons, consumer_asks_for_at_most=stop,
+                      schedule=run.get("sched"),
                       decisions=[[d["rank"], d["senders"], d["chosen"]] for d in run.get("decisions", [])][:40])
         key = ("dispatch", size, j.get("max_workers"), bool(j.get("node_only")), tuple(hosts or ()), mode,
-               tuple(d["chosen"] for d in run.get("decisions", [])), tuple(tasks))
+               tuple(d["chosen"] for d in run.get("decisions", [])), tuple(tasks), cons, stop)
         ctx.count(key=key, nontrivial=nontrivial_run(run),
                   kind="dispatch/size%d/mw%s/%s%s" % (size, j.get("max_workers"), mode, "/exh" if j.get("exhaustive") else ""))
         ctx.bump("dispatch_allowed_workers:%d" % len([r for r in ranks if r > 0]))
+        ctx.bump("dispatch_consumer:" + (cons if stop is None else cons + "(more than there are tasks)"))
         prob = rank_problems(run)
         if prob:
             st["noterm"].append(idx)
-            ctx.fail("c06-dispatch-%s" % prob[0],
-                     "iter_unordered under the simulated MPI world did not return on all ranks (%s): %s"
-                     % (prob[0], json.dumps(prob[1], default=str)[:600]), replay, case=("d", idx))
+            how = "" if cons == "list" and stop is None else "consumer-%s-" % cons.split("-")[0]
+            ctx.fail("c06-dispatch-%s%s" % (how, prob[0]),
+                     "iter_unordered (consumed by: %s%s) under the simulated MPI world did not return on all ranks (%s): %s; "
+                     "blocked in: %s"
+                     % (cons, "" if stop is None else ", at most %d items of %d" % (stop, len(tasks)), prob[0],
+                        json.dumps(prob[1], default=str)[:600], json.dumps((run.get("abort") or {}).get("blocked"))[:300]),
+                     replay, case=("d", idx))
             continue
         got = run["ranks"]["0"]["value"]
         ran = [t for _, t in run["executed"]]
@@ -544,6 +661,54 @@ def handle_dispatch(ctx, st, size, j, res):
     if j.get("exhaustive"):
         ctx.bump("exhaustive_sets_complete" if res.get("exhaustive_complete") else "exhaustive_sets_truncated")
         ctx.bump("exhaustive_runs", len(res.get("runs", [])))
+
+
+def handle_qdispatch(ctx, st, size, j, res):
+    """(i'') the consumer stops after k <= number of tasks items: replayed through qstep_with (Model/Dispatch.v).
+    Not an input of the property; the model says the world deadlocks with only the root back - a difference between
+    model and implementation is a broken tie (ctx.disagree), never a failing input"""
+    mode = j["sched"].get("mode", "eager")
+    ranks = ranks_of(size, j.get("max_workers"), j.get("node_only"), j["sched"].get("hosts"))
+    tasks, k, cons = j["tasks"], j["stop"], j.get("consumer")
+    for run in res.get("runs", []):
+        idx = ("q", len(st["qterms"]))
+        replay = dict(entry="parallel.iter_unordered", world_size=size, max_workers=j.get("max_workers"),
+                      rank0_node_only=bool(j.get("node_only")), tasks=tasks, consumer=cons, consumer_asks_for_at_most=k,
+                      schedule=run.get("sched"),
+                      decisions=[[d["rank"], d["senders"], d["chosen"]] for d in run.get("decisions", [])][:40])
+        key = ("stop", size, j.get("max_workers"), mode, tuple(d["chosen"] for d in run.get("decisions", [])), tuple(tasks), k, cons)
+        ctx.count(key=key, nontrivial=size >= 2, kind="consumer-stops/size%d/mw%s/%s%s"
+                  % (size, j.get("max_workers"), mode, "/exh" if j.get("exhaustive") else ""))
+        ret = [run["ranks"][str(r)]["status"] == "ok" for r in range(size)]
+        got = (run["ranks"]["0"].get("value") or []) if ret[0] else []
+        ran = [t for _, t in run["executed"]]
+        nroot = sum(1 for r, _ in run["executed"] if r == 0)
+        choices = qtranslate(run["log"], size, nroot, stopped=len(got) >= k)
+        ctx.bump("consumer_stops:%s" % ("world-deadlocked-only-root-back" if run["outcome"] == "deadlock" and ret[0] and not any(ret[1:])
+                                        else "outcome-" + run["outcome"]))
+        if k == len(tasks):
+            ctx.bump("consumer_stops_after_last_item")
+        if nroot:
+            ctx.bump("consumer_stops_in_root_fallback")
+        st["qterms"].append("c06_qdispatch_case %s %s %s %s %s %s %s %s %s" % (
+            fq.b(mode == "sync"), fq.nat(size - 1), fq.nlist(sorted(ranks)), fq.nlist(tasks), fq.nat(k), fq.lst(choices),
+            fq.nlist(got), fq.nlist(ran), fq.lst([fq.b(x) for x in ret])))
+        st["qmeta"].append(dict(idx=idx, replay=replay, got=got, ran=ran, returned=ret, outcome=run["outcome"], nchoices=len(choices)))
+        ctx.sample(dict(kind="consumer-stops", replay=replay, consumer_got=got, executed=run["executed"][:12], returned=ret,
+                        outcome=run["outcome"], choices=choices[:30]), limit=5)
+    if j.get("exhaustive"):
+        ctx.bump("consumer_stops_exhaustive_sets_complete" if res.get("exhaustive_complete") else "consumer_stops_exhaustive_sets_truncated")
+        ctx.bump("consumer_stops_exhaustive_runs", len(res.get("runs", [])))
+
+
+def finish_qdispatch(ctx, st):
+    codes = ctx.shards("Cases_C06Q", HEADER, st["qterms"], shard=120)
+    for m, c in zip(st["qmeta"], codes):
+        if c is None or c == 0:
+            continue
+        ctx.disagree("Cases_C06Q(consumer stops: model vs implementation)", m["idx"],
+                     dict(code=c, first_disabled_event=(c // 2) - 1 if c >= 2 else None, returned=m["returned"], outcome=m["outcome"],
+                          replay=m["replay"]))
 
 
 def finish_dispatch(ctx, st):
@@ -608,6 +773,36 @@ def reference(ctx, name):
     return json.loads(json.dumps(ref))
 
 
+ALL_PROGRESS = list(cc.PROGRESS_OPS)
+
+
+def draw_opts(rng, spec):
+    """one set of optional keyword arguments for the entry points of a world (meaning: c06_common, above stage_create)"""
+    n, nc = spec["n"], spec["ncent"]
+    o = {}
+    r = rng.random()
+    if r < 0.4:
+        o["progress"] = list(ALL_PROGRESS)
+    elif r < 0.8:
+        o["progress"] = sorted(rng.sample(ALL_PROGRESS, rng.choice([1, 2, 3])))
+    if rng.random() < 0.5:
+        o["cs"] = rng.choice([1, 2, n - 1, n, n + 1, 10 * n, None])
+    if rng.random() < 0.4:
+        o["leafsize"] = rng.choice([1, 2, 5, 64])
+    if rng.random() < 0.5:
+        o["force"] = rng.choice([True, False])
+    if rng.random() < 0.4:
+        o["count_rr"] = rng.choice([False, False, True])
+    if rng.random() < 0.3:
+        o["mw_config"] = True
+    if rng.random() < 0.3:
+        o["mw_ops"] = {op: rng.choice([1, 2, 3, None]) for op in rng.sample(["load", "trees", "auto", "cross", "hist"], 2)}
+    if rng.random() < 0.25 and 10 * nc <= n:
+        o["create_mode"] = "num"          # explicit probe sizes below 10 * patch_num or above n are refusals (class A)
+        o["probe"] = rng.choice([10 * nc, n, (10 * nc + n) // 2])
+    return o
+
+
 def pipeline_worlds(ctx):
     rng = ctx.rng
     worlds = [
@@ -622,13 +817,27 @@ def pipeline_worlds(ctx):
         dict(size=3, mw=1, mode="sync", policy="random", seed=7, spec="A", tag="root-fallback-pipeline", create=False),
         dict(size=4, mw=None, mode="eager", policy="random", seed=3, spec="G", tag="short-last-chunk"),
         dict(size=5, mw=None, mode="sync", policy="random", seed=4, spec="H", tag="short-last-chunk"),
+        # optional keyword arguments (deterministic): every operation through the progress bar, with worker ranks and
+        # with the root fallback; a forced second tree build; one-record chunks
+        dict(size=3, mw=None, mode="eager", policy="low", seed=0, spec="A", tag="progress-everywhere", opts=dict(progress=ALL_PROGRESS)),
+        dict(size=2, mw=None, mode="sync", policy="low", seed=0, spec="D", tag="progress-force-onerecord-chunks",
+             opts=dict(progress=ALL_PROGRESS, force=True, cs=1, leafsize=1, count_rr=False)),
+        dict(size=4, mw=1, mode="eager", policy="random", seed=5, spec="F", tag="progress-root-fallback", create=False,
+             opts=dict(progress=ALL_PROGRESS, mw_config=True)),
     ]
-    n = ctx.n(28, 350) - len(worlds)
+    n = ctx.n(30, 350) - len(worlds)
     names = sorted(SPECS)
-    for _ in range(n):
+    # the single-process reference run is repeated for every (data spec, option set): a bounded number of such scenarios,
+    # every random world takes one of them (several worlds - sizes, worker limits, schedules - per scenario)
+    scenarios = [(nm, {}) for nm in rng.sample(names, 2)]
+    while len(scenarios) < ctx.n(9, 70):
+        nm = rng.choice(names)
+        scenarios.append((nm, draw_opts(rng, SPECS[nm])))
+    for i in range(n):
         size = rng.choice([2, 3, 3, 4, 4, 5])
         mw = rng.choice([None, None, 2, 3, size, 1])
-        worlds.append(dict(size=size, mw=mw, spec=rng.choice(names), create=(mw != 1),
+        nm, opts = scenarios[i % len(scenarios)] if i < len(scenarios) else rng.choice(scenarios)
+        worlds.append(dict(size=size, mw=mw, spec=nm, create=(mw != 1), opts=json.loads(json.dumps(opts)),
                            mode=rng.choice(["eager", "sync", "sync", "mixed"]),
                            policy=rng.choice(["random", "random", "random", "low", "high", "fifo", "lifo"]),
                            seed=rng.randrange(10 ** 6), tag="random"))
@@ -659,9 +868,56 @@ def pipeline_worlds(ctx):
             w["refusals"].append(refusal_item(rng, rng.choice(CLASSES_BC), SPECS[w["spec"]], w["mw"]))
     for i, w in enumerate(worlds):
         w["id"] = "p%03d" % i
+        w.setdefault("opts", {})
         if w["mw"] is not None and w["mw"] > w["size"]:
             w["mw"] = w["size"]
     return worlds
+
+
+class quiet_stderr:
+    """the progress bar of the single-process reference runs goes to /dev/null (file descriptor 2 of this process;
+    the check's own messages are written to stdout)"""
+
+    def __enter__(self):
+        import sys
+        sys.stderr.flush()
+        self.saved = os.dup(2)
+        self.null = os.open(os.devnull, os.O_WRONLY)
+        os.dup2(self.null, 2)
+
+    def __exit__(self, *exc):
+        import sys
+        sys.stderr.flush()
+        os.dup2(self.saved, 2)
+        os.close(self.saved)
+        os.close(self.null)
+
+
+_world_refs = {}
+
+
+def world_reference(ctx, ref, specname, opts):
+    """the single-process results (this process, no MPI, max_workers=1) of the SAME calls with the SAME optional keyword
+    arguments: {"create": summary, "rest": {op: summary}}; for the default arguments the reference of the data spec"""
+    sopts = cc.single_process_opts(opts)
+    if not sopts:
+        return dict(create=ref["create"]["data"], rest=ref["rest"])
+    key = (specname, json.dumps(sopts, sort_keys=True))
+    if key not in _world_refs:
+        spec = SPECS[specname]
+        d = os.path.join(ref["base"], "wref_%d" % len(_world_refs))
+        os.makedirs(os.path.join(d, "out"), exist_ok=True)
+        impl.set_threads(1)
+        with quiet_stderr():
+            create = cc.stage_create(spec, os.path.join(d, "created"), 1, "data", sopts)
+            caches = {}
+            for k in cc.CATS:
+                caches[k] = os.path.join(d, k)
+                cc.copy_cache(ref["caches"][k], caches[k])
+            rest = cc.stage_rest(spec, caches, os.path.join(d, "out"), 1, True, None, sopts)
+        shutil.rmtree(d, ignore_errors=True)
+        _world_refs[key] = json.loads(json.dumps(dict(create=create, rest=rest)))
+    return _world_refs[key]
 
 
 # ------------------------------------------------------------------------------------------
@@ -702,6 +958,8 @@ def refusal_item(rng, cls, spec, mw):
         par = dict(col=rng.choice(["z", "w", "ra", "dec"]))
     elif cls == "create-patch-id-range":
         par = dict(idx=rng.randrange(spec["n"]), value=rng.choice([40000, 32768, -1]))
+    if cls not in cc.NO_PROGRESS_KW and rng.random() < 0.4:
+        par = dict(par, progress=True)      # the refused request goes through the progress bar
     follow = rng.choice([f for f in cc.FOLLOW_UPS if not (f == "create" and mw == 1)])
     return dict(cls=cls, par=par, follow=follow)
 
@@ -716,7 +974,8 @@ def refusal_reference(ref, specname, cls, par):
         d = os.path.join(ref["base"], "rf_%d" % len(_ref_first))
         env = refusal_env(d, ref, cls, None)
         impl.set_threads(1)
-        _ref_first[key] = cc.refusal_outcome(cls, SPECS[specname], env, par, 1)
+        with quiet_stderr():
+            _ref_first[key] = cc.refusal_outcome(cls, SPECS[specname], env, par, 1)
         shutil.rmtree(d, ignore_errors=True)
     return _ref_first[key]
 
@@ -747,7 +1006,7 @@ def refusal_job(w, d, caches, ref, item, jid, seed):
     if cc.REFUSALS[cls][2] and mw == 1:
         mw = 2          # catalog creation on an MPI world is refused for max_workers=1 whatever the input
     return dict(kind="refusal", id=jid, cls=cls, par=item["par"], follow=item["follow"], spec=SPECS[w["spec"]],
-                trace=cc.REFUSALS[cls][0] == "C",
+                trace=cc.REFUSALS[cls][0] == "C", opts=w.get("opts") or {},
                 env=refusal_env(os.path.join(d, "refusal_" + jid), ref, cls, caches), max_workers=mw,
                 sched=dict(mode=w["mode"], policy=w["policy"], seed=seed),
                 ref_first=item.get("ref_first") or refusal_reference(ref, w["spec"], cls, item["par"]))
@@ -766,6 +1025,7 @@ def handle_refusal(ctx, st, w, ref, j, res):
     sched = run.get("sched") or {}
     replay = dict(entry="refusal", refusal_class=cls, request=request, parameters=par, follow_up=follow, world_size=size,
                   max_workers=j["max_workers"], mode=w["mode"], policy=w["policy"], seed=sched.get("seed"),
+                  follow_up_options=w.get("opts") or {},
                   data_spec=dict(SPECS[w["spec"]], name=w["spec"]), single_process_outcome=want_first,
                   how="harness/props/c06_driver.py job kind 'refusal': cc.stage_refusal on every rank = the request, "
                       "COMM.Barrier(), then the follow-up operation on the regular data catalog")
@@ -797,9 +1057,14 @@ def handle_refusal(ctx, st, w, ref, j, res):
             ctx.disagree("refusal-exception-type(root vs single process)", idx,
                          dict(replay=replay, root=root_first, single_process=want_first))
         val = run["ranks"]["0"].get("value") or {}
-        want = {"create": ref["create"]["data"]} if follow == "create" else \
-            {follow: ({"data": ref["rest"]["load"]["data"]} if follow == "load" else ref["rest"][follow])}
+        wref = w.get("_ref") or world_reference(ctx, ref, w["spec"], w.get("opts") or {})
+        want = {"create": wref["create"]} if follow == "create" else \
+            {follow: ({"data": wref["rest"]["load"]["data"]} if follow == "load" else wref["rest"][follow])}
         diff = cc.first_diff(want, val)
+        if follow == "create" and (w.get("opts") or {}).get("create_mode") == "num" and \
+                None in (wref["create"].get("union"), (val.get("create") or {}).get("union", 0)):
+            ctx.bump("create_num_kmeans_left_a_centre_empty(not compared)")
+            diff = None
         follow_same = diff is None
         if diff:
             ctx.fail("c06-refusal-%s-followup-differs" % cls,
@@ -848,9 +1113,10 @@ def pipeline_job(ctx, w, ref):
     jobs = []
     if w.get("create", True):
         jobs.append(dict(kind="create", id="create", spec=spec, cache=os.path.join(d, "created"), which="data",
-                         max_workers=w["mw"], sched=sched, keep_log=True))
+                         max_workers=w["mw"], sched=sched, keep_log=True, opts=w.get("opts") or {}))
     jobs.append(dict(kind="rest", id="rest", spec=spec, caches=caches, outdir=os.path.join(d, "out"),
-                     max_workers=w["mw"], sched=dict(sched, seed=w["seed"] + 1), keep_log=False, ops=w.get("ops")))
+                     max_workers=w["mw"], sched=dict(sched, seed=w["seed"] + 1), keep_log=False, ops=w.get("ops"),
+                     opts=w.get("opts") or {}))
     for i, item in enumerate(w.get("refusals", [])):
         jobs.append(refusal_job(w, d, caches, ref, item, "r%02d" % i, w["seed"] + 2 + i))
     return dict(size=w["size"], jobs=jobs)
@@ -865,8 +1131,12 @@ OPS_WHAT = {
 
 def handle_pipeline(ctx, w, ref, out, st, jobs):
     spec = SPECS[w["spec"]]
+    opts = w.get("opts") or {}
     base = dict(world_size=w["size"], max_workers=w["mw"], mode=w["mode"], policy=w["policy"], seed=w["seed"],
-                data_spec=dict(spec, name=w["spec"]))
+                data_spec=dict(spec, name=w["spec"]), optional_keyword_arguments=opts, ops=w.get("ops"), create=w.get("create", True))
+    okey = json.dumps(opts, sort_keys=True)
+    wref = w.get("_ref") or world_reference(ctx, ref, w["spec"], opts)
+    w["_ref"] = wref
     byid = {j["id"]: j for j in jobs}
     for res in out["results"]:
         if res.get("skipped"):
@@ -879,19 +1149,52 @@ def handle_pipeline(ctx, w, ref, out, st, jobs):
         stage = res["id"]
         idx = (w["id"], stage)
         replay = dict(base, stage=stage, schedule=run.get("sched"),
-                      how="harness/props/c06_driver.py with this job: size, spec, max_workers, sched")
-        ctx.count(key=("pipeline", stage, w["size"], w["mw"], w["mode"], w["policy"], w["seed"], w["spec"]),
+                      how="harness/props/c06_driver.py with this job: size, spec, max_workers, sched, opts "
+                          "(c06_common.stage_create / stage_rest on every rank)")
+        ctx.count(key=("pipeline", stage, w["size"], w["mw"], w["mode"], w["policy"], w["seed"], w["spec"], okey),
                   nontrivial=nontrivial_run(run), kind="%s/size%d/mw%s/%s" % (stage, w["size"], w["mw"], w["mode"]))
+        for name in sorted(opts):
+            if name == "progress":
+                for op in opts[name]:
+                    if op != "create" if stage == "rest" else op == "create":
+                        ctx.bump("option:progress=True/" + op)
+            elif (name in ("cs", "create_mode", "probe")) == (stage == "create"):
+                ctx.bump("option:%s=%s" % (name, json.dumps(opts[name], sort_keys=True)))
         prob = rank_problems(run)
         if prob:
-            ctx.fail("c06-%s-%s" % (stage, prob[0]),
-                     "%s under the simulated MPI world did not return on all ranks (%s): %s"
-                     % ("Catalog.from_dataframe" if stage == "create" else "entry points after creation", prob[0],
-                        json.dumps(prob[1], default=str)[:700]), replay, case=idx)
+            # the operation the slowest rank was in when the world stopped (stage_rest marks every operation per rank)
+            at = run.get("at") or {}
+            order = ["load", "trees", "trees-again", "auto", "cross", "hist", "io_hist", "io_cf", "done"]
+            behind = sorted((order.index(v) for v in at.values() if v in order and v != "done"))
+            where = "create" if stage == "create" else (order[behind[0]] if behind else stage)
+            what = {"create": "Catalog.from_dataframe", "load": "Catalog(cache)", "trees": "Catalog.build_trees",
+                    "trees-again": "Catalog.build_trees (second call)", "auto": "yaw.autocorrelate", "cross": "yaw.crosscorrelate",
+                    "hist": "HistData.from_catalog", "io_hist": "HistData.to_files/from_files",
+                    "io_cf": "CorrFunc.to_file/from_file"}.get(where, "entry points after creation")
+            ctx.fail("c06-%s-%s" % (where.replace("_", "-"), prob[0]),
+                     "%s (optional keyword arguments of the world: %s) under the simulated MPI world did not return on all ranks (%s): "
+                     "%s; operation per rank when the world stopped: %s; blocked in: %s"
+                     % (what, okey, prob[0], json.dumps(prob[1], default=str)[:700], json.dumps(at, sort_keys=True),
+                        json.dumps((run.get("abort") or {}).get("blocked"))[:400]),
+                     dict(replay, operation_per_rank=at), case=idx)
             continue
         val = run["ranks"]["0"]["value"]
+        if stage == "create" and opts.get("create_mode") == "num":
+            # the library chose the patch centres (k-means, not seeded): all records must be stored, nothing else is comparable
+            want = wref["create"]
+            if want.get("union") is None or (val or {}).get("union") is None:
+                ctx.bump("create_num_kmeans_left_a_centre_empty(not compared)")
+                continue
+            diff = cc.first_diff(want, val)
+            ctx.bump("create_num_union_equal" if not diff else "create_num_union_differs")
+            if diff:
+                ctx.fail("c06-create-root-result-differs",
+                         "Catalog.from_dataframe(patch_num=%d, probe_size=%s): the records stored in the root's catalog differ from the "
+                         "single-process run at %s (unreceived messages: %s)" % (spec["ncent"], opts.get("probe"), diff, run["leftover"][:4]),
+                         dict(replay, first_difference=diff), case=idx)
+            continue
         if stage == "create":
-            want = ref["create"]["data"]
+            want = wref["create"]
             diff = cc.first_diff(want, val)
             senders = sorted({e[1] for e in run.get("log", []) if e[2] in ("send", "ssend") and e[3] == 1 and e[4] == 1 and e[5] == 0})
             ctx.bump("create_senders:%d" % len(senders))
@@ -925,7 +1228,7 @@ def handle_pipeline(ctx, w, ref, out, st, jobs):
             ctx.sample(dict(kind="create", replay=base, senders=senders, decisions=len(run["decisions"]),
                             unreceived=len(run["leftover"]), equal=diff is None), limit=5)
         else:
-            want = ref["rest"]
+            want = wref["rest"]
             ops = [o for o in want if (w.get("ops") is None or o in w["ops"])]
             for op in ops:
                 a, b = want[op], (val or {}).get(op)
@@ -967,7 +1270,7 @@ def is_f13b(run):
 
 # ------------------------------------------------------------------------------------------
 def new_state():
-    return dict(terms=[], meta=[], noterm=[], rterms=[], rmeta=[], eterms=[], emeta=[], enoterm=[])
+    return dict(terms=[], meta=[], noterm=[], rterms=[], rmeta=[], eterms=[], emeta=[], enoterm=[], qterms=[], qmeta=[])
 
 
 def run(ctx):
@@ -986,6 +1289,10 @@ def run(ctx):
     refs = {}
     for name in sorted({w["spec"] for w in pworlds}):
         refs[name] = reference(ctx, name)
+    for w in pworlds:           # single-process results of the same calls with the same optional keyword arguments
+        w["_ref"] = world_reference(ctx, refs[w["spec"]], w["spec"], w.get("opts") or {})
+    ctx.log("reference runs with optional keyword arguments: %d (data spec, option set) scenarios (%.1fs)"
+            % (len(_world_refs), time.time() - t0))
     nref = 0
     for w in pworlds:           # single-process outcome of every refused request (this thread, before any world runs)
         for item in w.get("refusals", []):
@@ -1045,6 +1352,8 @@ def run(ctx):
     ctx.log("refusal shards done (%.1fs)" % (time.time() - t0))
     finish_edispatch(ctx, st)
     ctx.log("job-error shards done (%.1fs)" % (time.time() - t0))
+    finish_qdispatch(ctx, st)
+    ctx.log("consumer-stop shards done (%.1fs)" % (time.time() - t0))
     ctx.extra["refusals"] = dict(classes={c: cc.REFUSALS[c][0] for c in sorted(cc.REFUSALS)}, runs=len(st["rterms"]),
                                  groups="A: decided by every rank; B: detected by one rank (root reads / writer opens); "
                                         "C: raised by the job on a worker rank; M: refused under MPI only")
@@ -1054,10 +1363,19 @@ def run(ctx):
     ctx.extra["job_errors"] = dict(runs=len(st["eterms"]) + len(st["enoterm"]),
                                    what="failing-job dispatch runs and iter_unordered episodes of group C refusals replayed "
                                         "through estep_with (Model/Dispatch.v, c06_edispatch_case)")
+    ctx.extra["consumer_stops"] = dict(runs=len(st["qterms"]),
+                                       what="iter_unordered consumed by islice / a breaking loop with an item limit <= number of tasks, replayed "
+                                            "through qstep_with (Model/Dispatch.v, c06_qdispatch_case); tie only")
+    ctx.extra["optional_keyword_arguments"] = dict(
+        scenarios=len(_world_refs), worlds_with_options=sum(1 for w in pworlds if w.get("opts")),
+        what="(data spec, option set) pairs for which the single-process reference was recomputed with the same arguments")
     ctx.extra["hypotheses_checked"] = ["every logged event enabled in Model/Dispatch.v step_with (flag0)",
                                        "failing jobs: every logged event enabled in estep_with, final model state = observed "
                                        "yields / executed tasks / per-rank outcome (flag0 of c06_edispatch_case)",
                                        "none needed: dispatch_exactly_once_total has no hypothesis on the rank set",
+                                       "consumer with an item limit k: k > |tasks| -> ordinary protocol run (C06_consumer_exhausts_is_protocol), "
+                                       "checked by c06_dispatch_case; 1 <= k <= |tasks| -> every logged event enabled in qstep_with and the "
+                                       "model ends stopped + quiet iff only the root returned (flag0 of c06_qdispatch_case)",
                                        "refusal runs: all ranks returned -> the logged collective calls of every communicator "
                                        "are aligned (C06_collectives_terminate_iff_aligned, flag0 of c06_refusal_case)"]
 
@@ -1068,7 +1386,8 @@ def replay(ctx, data):
     size = r["world_size"]
     if r.get("entry") == "parallel.iter_unordered":
         job = dict(size=size, jobs=[dict(kind="dispatch", id=0, tasks=r["tasks"], max_workers=r["max_workers"],
-                                         node_only=r.get("rank0_node_only"), sched=r["schedule"])])
+                                         node_only=r.get("rank0_node_only"), sched=r["schedule"], consumer=r.get("consumer"),
+                                         stop=r.get("consumer_asks_for_at_most"))])
         if r.get("job_raises_for") is not None:
             job["jobs"][0]["bad"] = r["job_raises_for"]
         res = launch(ctx, "replay", job)
@@ -1079,11 +1398,12 @@ def replay(ctx, data):
         else:
             handle_dispatch(ctx, st, size, job["jobs"][0], res["out"]["results"][0])
             finish_dispatch(ctx, st)
+            finish_qdispatch(ctx, st)
     elif r.get("entry") == "refusal":
         name = r["data_spec"]["name"]
         ref = reference(ctx, name)
         w = dict(id="replay", size=size, mw=r["max_workers"], mode=r["mode"], policy=r["policy"], seed=r["seed"] - 2, spec=name,
-                 create=False, ops=["load"],
+                 create=False, ops=["load"], opts=r.get("follow_up_options") or {},
                  refusals=[dict(cls=r["refusal_class"], par=r["parameters"], follow=r["follow_up"])])
         job = pipeline_job(ctx, w, ref)
         res = launch(ctx, "replay", job)
@@ -1094,7 +1414,8 @@ def replay(ctx, data):
     else:
         name = r["data_spec"]["name"]
         ref = reference(ctx, name)
-        w = dict(id="replay", size=size, mw=r["max_workers"], mode=r["mode"], policy=r["policy"], seed=r["seed"], spec=name)
+        w = dict(id="replay", size=size, mw=r["max_workers"], mode=r["mode"], policy=r["policy"], seed=r["seed"], spec=name,
+                 opts=r.get("optional_keyword_arguments") or {}, ops=r.get("ops"), create=r.get("create", True))
         job = pipeline_job(ctx, w, ref)
         res = launch(ctx, "replay", job)
         handle_pipeline(ctx, w, ref, res["out"], new_state(), job["jobs"])
